@@ -18,6 +18,7 @@ import MW.Lemmas.ApiSound
 import MW.Lemmas.ApiSafe
 import MW.Lemmas.ApiStall
 import MW.Lemmas.ApiBackedEx
+import MW.Lemmas.ApiBackedLedger2
 import MW.Gen.Sites
 namespace MW.Props.C19
 open MW.Model.Api MW.Lemmas.ApiSound MW.Lemmas.ApiSafe
@@ -229,6 +230,22 @@ theorem ledger_existsTx_index {c : MW.Model.Ledger.Ctx} {s : MW.Model.Ledger.Sto
     {t : MW.Model.Ledger.Tx} {blk : MW.Model.Ledger.BlockMeta}
     (h : MW.Model.ApiLedger.existsTx s c.node cur tx idx = some (t, blk)) : idx < t.outs.length ∧ t.id = tx :=
   MW.Lemmas.ApiBacked.existsTx_index hI hV hid h
+
+/-- … with C01's own hypotheses only (no `TxIdsAgree`): when the wallet's chain is a prefix of the node's valid best
+    chain – the follower is level with the node or behind it on the same branch – ids name one transaction because a
+    valid chain has no duplicate transaction id (`txIdsAgree_of_prefix`) -/
+theorem ledger_existsTx_index_prefix {c : MW.Model.Ledger.Ctx} {s : MW.Model.Ledger.Store} {chain rest : List MW.Model.Ledger.Block}
+    (hI : MW.Lemmas.Ledger.Inv c s chain) (hN : c.node.chain = chain ++ rest)
+    (hV : MW.Lemmas.Ledger.ChainValid c.own c.node.chain) {cur tx : String} {idx : Nat}
+    {t : MW.Model.Ledger.Tx} {blk : MW.Model.Ledger.BlockMeta}
+    (h : MW.Model.ApiLedger.existsTx s c.node cur tx idx = some (t, blk)) : idx < t.outs.length ∧ t.id = tx :=
+  MW.Lemmas.ApiBacked.existsTx_index_prefix hI hN hV h
+
+/-- its hypotheses hold for the worked store (node chain = wallet chain G – b1 – c2, `rest = []`) with a successful lookup -/
+example : MW.Lemmas.ApiBacked.exCtx.node.chain = MW.Lemmas.ApiBacked.exChain ++ [] ∧
+    MW.Lemmas.Ledger.ChainValid MW.Lemmas.ApiBacked.exCtx.own MW.Lemmas.ApiBacked.exCtx.node.chain ∧
+    (MW.Model.ApiLedger.existsTx MW.Lemmas.ApiBacked.exStore MW.Lemmas.ApiBacked.exCtx.node "w1" "c1" 0).isSome = true :=
+  ⟨rfl, MW.Lemmas.ApiBacked.exValid, by rw [MW.Lemmas.ApiBacked.exExists0]; rfl⟩
 
 /-- CONTRACTS (amount, from the C15 model): `strings.Split(s, ".")` has ≥ 1 part (Dec.splitDot), the decimal string
     of `u + 10^8` has ≥ 9 digits (Dec.render) -/
